@@ -795,6 +795,26 @@ func TestStorms(t *testing.T) {
 			},
 		}
 	})
+	// bind requests for one server feature on two connections at once (one wins), deletes, writes
+	run("binds-vs-binds", func(e *env, stop *atomic.Bool) []func() {
+		p0, p1 := e.w.Peers[0], e.w.Peers[1]
+		contend := func(p *world.Peer) func() {
+			return func() {
+				for i := 0; i < 300 && !stop.Load(); i++ {
+					p.Send(p.Msg(model.CmdClassifierTypeCall, p.NM(), world.LocalNM(), true, nil, world.BindCall(p.FA([]uint{1}, 1), e.meas.Address(), model.FeatureTypeTypeMeasurement)))
+					p.Send(p.Msg(model.CmdClassifierTypeWrite, p.FA([]uint{1}, 1), e.meas.Address(), true, nil, model.CmdType{MeasurementListData: &model.MeasurementListDataType{}}))
+					p.Send(p.Msg(model.CmdClassifierTypeCall, p.NM(), world.LocalNM(), true, nil, world.UnbindCall(p.FA([]uint{1}, 1), e.meas.Address())))
+				}
+				stop.Store(true)
+			}
+		}
+		return []func(){contend(p0), contend(p1), func() {
+			for !stop.Load() {
+				_ = e.w.Local.BindingManager().BindingsOnFeature(*e.meas.Address())
+				_ = e.w.Local.BindingManager().Bindings(p0.Dev)
+			}
+		}}
+	})
 	run("entities-vs-discovery", func(e *env, stop *atomic.Bool) []func() {
 		p0, p1 := e.w.Peers[0], e.w.Peers[1]
 		return []func(){
